@@ -2,6 +2,7 @@ package main
 
 import (
 	"fmt"
+	"go/types"
 	"sort"
 	"strings"
 
@@ -43,6 +44,116 @@ type Sim struct {
 	cur     *Frame
 	env     *boolEnv
 	vals    map[ssa.Value]ssa.Value // results of inlined helpers on the current path
+	// booleans kept in fields of local structs, tracked along the path
+	mem  map[simMemKey]bool          // (frame, alloc, field) → value, when known
+	snap map[ssa.Value]map[int]bool  // a whole-struct load → the known boolean fields at that moment
+}
+
+type simMemKey struct {
+	fr *Frame
+	a  *ssa.Alloc
+	f  int
+}
+
+func (s *Sim) memSet(k simMemKey, val, known bool) {
+	old, had := s.mem[k]
+	s.env.undo = append(s.env.undo, func() {
+		if had {
+			s.mem[k] = old
+		} else {
+			delete(s.mem, k)
+		}
+	})
+	if known {
+		s.mem[k] = val
+	} else {
+		delete(s.mem, k)
+	}
+}
+
+func structOf(t types.Type) *types.Struct {
+	if pt, ok := t.Underlying().(*types.Pointer); ok {
+		t = pt.Elem()
+	}
+	st, _ := t.Underlying().(*types.Struct)
+	return st
+}
+
+// memStep interprets the instructions that move booleans through fields of
+// local structs: zero initialisation, field stores, whole-struct copies
+// (value receivers, results returned by value), field loads.
+func (s *Sim) memStep(fr *Frame, in ssa.Instruction) {
+	switch x := in.(type) {
+	case *ssa.Alloc:
+		if st := structOf(x.Type()); st != nil {
+			for i := 0; i < st.NumFields(); i++ {
+				if isBoolT(st.Field(i).Type()) {
+					s.memSet(simMemKey{fr, x, i}, false, true)
+				}
+			}
+		}
+	case *ssa.Store:
+		if fa, ok := x.Addr.(*ssa.FieldAddr); ok {
+			if a, ok := fa.X.(*ssa.Alloc); ok && isBoolT(x.Val.Type()) {
+				v, k := s.evalCond(fr, x.Val)
+				s.memSet(simMemKey{fr, a, fa.Field}, v, k)
+			}
+			return
+		}
+		if b, ok := x.Addr.(*ssa.Alloc); ok {
+			if st := structOf(b.Type()); st != nil {
+				s.cur = fr
+				sn := s.snap[s.Resolve(x.Val)]
+				for i := 0; i < st.NumFields(); i++ {
+					if !isBoolT(st.Field(i).Type()) {
+						continue
+					}
+					v, k := sn[i]
+					s.memSet(simMemKey{fr, b, i}, v, k)
+				}
+			}
+		}
+	case *ssa.UnOp:
+		if x.Op.String() != "*" {
+			return
+		}
+		if fa, ok := x.X.(*ssa.FieldAddr); ok {
+			if a, ok := fa.X.(*ssa.Alloc); ok && isBoolT(x.Type()) {
+				if v, k := s.mem[simMemKey{fr, a, fa.Field}]; k {
+					s.env.set(x, v)
+				}
+			}
+			return
+		}
+		if a, ok := x.X.(*ssa.Alloc); ok {
+			if st := structOf(a.Type()); st != nil {
+				sn := map[int]bool{}
+				for i := 0; i < st.NumFields(); i++ {
+					if v, k := s.mem[simMemKey{fr, a, i}]; k {
+						sn[i] = v
+					}
+				}
+				old, had := s.snap[x]
+				s.env.undo = append(s.env.undo, func() {
+					if had {
+						s.snap[x] = old
+					} else {
+						delete(s.snap, x)
+					}
+				})
+				s.snap[x] = sn
+			}
+		}
+	case *ssa.Field:
+		if isBoolT(x.Type()) {
+			s.cur = fr
+			if sn, ok := s.snap[s.Resolve(x.X)]; ok {
+				if v, k := sn[x.Field]; k {
+					s.env.set(x, v)
+				}
+			}
+		}
+	}
 }
 
 // C canonicalises a value of the current (possibly inlined) frame.
@@ -59,6 +170,8 @@ func (s *Sim) Run() []string {
 	s.env = newBoolEnv()
 	s.choice = map[*ssa.Phi]int{}
 	s.vals = map[ssa.Value]ssa.Value{}
+	s.mem = map[simMemKey]bool{}
+	s.snap = map[ssa.Value]map[int]bool{}
 	s.states = 0
 	s.Trunc = false
 	if s.MaxStates == 0 {
@@ -92,6 +205,13 @@ func (s *Sim) envKey() string {
 			c = "N"
 		}
 		parts = append(parts, fmt.Sprintf("%p%s", v, c))
+	}
+	for k, b := range s.mem {
+		c := "0"
+		if b {
+			c = "1"
+		}
+		parts = append(parts, fmt.Sprintf("m%p.%p.%d=%s", k.fr, k.a, k.f, c))
 	}
 	sort.Strings(parts)
 	return strings.Join(parts, ",")
@@ -226,6 +346,8 @@ func (s *Sim) walk(fr *Frame, b *ssa.BasicBlock, idx int, pred *ssa.BasicBlock, 
 				return
 			}
 		}
+		s.memStep(fr, in)
+		s.cur = fr
 		if r := s.Record(in); r != "" {
 			recs = append(recs[:len(recs):len(recs)], r)
 		}
